@@ -17,7 +17,7 @@ def run(ctx):
     with concurrent.futures.ThreadPoolExecutor(max_workers=3 if ctx.quick else 2) as ex:
         list(ex.map(lambda c: ctx.design("Output/OutImpl.tla", c, workers=w, timeout=300 if ctx.quick else 1500, heap="6g" if ctx.quick else "12g",
                                          note="mechanism, all programs x all accept-prefix/would-block schedules; Out invariants on the mapped variables"), cfgs))
-    must = MUST_FAIL[:2] + MUST_FAIL[3:5] if ctx.quick else MUST_FAIL
+    must = [MUST_FAIL[0], MUST_FAIL[3]] if ctx.quick else MUST_FAIL
     found = {}
 
     def selftest(c):
